@@ -22,20 +22,32 @@ class SFset(Sym):
     """static kind: a frozenset whose items (in canonical order) are the VL term"""
     kind = "fset"
 
+    def as_val(self):
+        return Val.VFset(self.z)
+
 
 class SSlice(Sym):
     """static kind: a slice; z is the Val term (VSlice)"""
     kind = "slice"
+
+    def as_val(self):
+        return self.z
 
 
 class SComplex(Sym):
     """static kind: a complex number; z is the Val term (VComplex)"""
     kind = "complex"
 
+    def as_val(self):
+        return self.z
+
 
 class SType(Sym):
     """type(x) of a dynamic value: an Int type id"""
     kind = "type"
+
+    def as_val(self):
+        return Val.VRef(-1 - self.z)       # the class object of a dynamic value: a heap object named by its type id
 
 
 WRAP["fset"] = SFset
@@ -53,6 +65,8 @@ def to_val_ext(x):
         return Val.VFset(x.z)
     if isinstance(x, (SSlice, SComplex)):
         return x.z
+    if isinstance(x, SType):
+        return Val.VRef(-1 - x.z)       # the class object of a dynamic value: a heap object named by its type id
     return _to_val_orig(x)
 
 
@@ -171,6 +185,13 @@ class SpecEnv(object):
     # -- entry points -------------------------------------------------------------------------
     def evaluate(self, engine, expr, st, pre, scope):
         """-> (value, facts)"""
+        try:
+            return self._evaluate(engine, expr, st, pre, scope)
+        except IndexError:
+            raise engine_checker_error("spec expression refers to a ghost event that does not exist on this path: %r "
+                                       "(trace: %s)" % (expr, [e[:2] for e in st.trace]))
+
+    def _evaluate(self, engine, expr, st, pre, scope):
         node = self.expr_cache.get(expr)
         if node is None:
             node = ast.parse(expr.strip(), mode="eval").body
@@ -336,6 +357,11 @@ class SpecEnv(object):
         canon = U("canon", VL, VL)
         int_str = U("int_str", Int, Bytes)
         sent_part = U("sent_part", Bytes, Bytes, Bytes)
+        has_attr = U("has_attr", Val, Bytes, Bool)
+        class_attr = U("class_attr", Int, Bytes, Val, Val)
+        val_contains = U("val_contains", Val, Val, Bool)
+        dict_of = U("dict_of", Val, Val)
+        iter_items = U("iter_items", Val, VL)
 
         def p_be32(ctx, n):
             t = be32(zint(n))
@@ -393,6 +419,50 @@ class SpecEnv(object):
             self.fact(z3.And(zdecomp(t) == zseq(d), zvalid(t)))
             return SBytes(t)
         P["zcomp"] = p_zcomp
+        ops.CONTAINS_HOOK = lambda c, x: val_contains(to_val(c), to_val(x))
+        P["dict_of"] = lambda ctx, v: SVal(dict_of(to_val(v)))
+
+        def p_call_kwargs(ctx, i):
+            k = [e for e in ctx.st.trace if e[0] == "Call"][i][4]
+            return SVal(k) if k is not None else None
+        P["call_kwargs"] = p_call_kwargs
+        P["has_attr"] = lambda ctx, o, n: b2v(has_attr(to_val(o), zseq(n)))
+        P["class_attr"] = lambda ctx, o, n, d: SVal(class_attr(typeof(to_val(o)), zseq(n), to_val(d)))
+        P["val_contains"] = lambda ctx, c, x: b2v(val_contains(to_val(c), to_val(x)))
+        def p_exc_is(ctx, exc, name):
+            import builtins
+            cls = getattr(builtins, name)
+            return isinstance(exc.cls, type) and issubclass(exc.cls, cls)
+        P["exc_is"] = p_exc_is
+        P["truthy"] = lambda ctx, v: b2v(truth(v))
+        P["isvbool"] = lambda ctx, v: b2v(Val.is_VBool(to_val(v)))
+
+        def p_n_calls(ctx):
+            return len([e for e in ctx.st.trace if e[0] == "Call"])
+        P["n_calls"] = p_n_calls
+        P["call_fn"] = lambda ctx, i: SVal([e for e in ctx.st.trace if e[0] == "Call"][i][1])
+        P["call_args"] = lambda ctx, i: SVL([e for e in ctx.st.trace if e[0] == "Call"][i][2])
+        P["call_result"] = lambda ctx, i: SVal([e for e in ctx.st.trace if e[0] == "Call"][i][3])
+        P["n_callees"] = lambda ctx, name: len([e for e in ctx.st.trace if e[0] == "Callee" and e[1] == name])
+        P["callee_arg"] = lambda ctx, name, i, p: [e for e in ctx.st.trace if e[0] == "Callee" and e[1] == name][i][2][p]
+        P["callee_result"] = lambda ctx, name, i: [e for e in ctx.st.trace if e[0] == "Callee" and e[1] == name][i][3]
+        P["n_events"] = lambda ctx: len(ctx.st.trace)
+        P["typeobj"] = lambda ctx, v: SVal(Val.VRef(-1 - typeof(to_val(v))))
+
+        def p_all_calls_from(ctx, name):
+            results = [e[3] for e in ctx.st.trace if e[0] == "Callee" and e[1] == name and not isinstance(e[3], str)]
+            conj = []
+            for e in ctx.st.trace:
+                if e[0] == "Call":
+                    conj.append(z3.Or([e[1] == to_val(r) for r in results] + [FALSE]))
+            return b2v(z3.And(conj)) if conj else True
+        P["all_calls_from_callee"] = p_all_calls_from
+
+        def p_all_getattr_on(ctx, obj):
+            conj = [to_val(e[2]["obj"]) == to_val(obj) for e in ctx.st.trace if e[0] == "Callee" and e[1] == "_handle_getattr"]
+            return b2v(z3.And(conj)) if conj else True
+        P["all_getattr_on"] = p_all_getattr_on
+        P["iter_items"] = lambda ctx, v: SVL(iter_items(to_val(v)))
         P["sent_part"] = lambda ctx, a, b: SBytes(sent_part(zseq(a), zseq(b)))
         P["zdecomp"] = lambda ctx, d: SBytes(zdecomp(zseq(d)))
         P["zvalid"] = lambda ctx, d: b2v(zvalid(zseq(d)))
@@ -470,6 +540,10 @@ class SpecEnv(object):
             return b2v(z3.Implies(ops._z(truth(a)), ops._z(truth(b))))
         P["implies"] = p_implies
 
+        def p_haskey(ctx, d, k):
+            return b2v(z3.Select(ctx.engine.heap_get(ctx.st, d, "has").z, to_val(k)))
+        P["haskey"] = p_haskey
+
         def p_ite(ctx, c, a, b):
             return merge_values(truth(c), a, b)
         P["ite"] = p_ite
@@ -479,6 +553,11 @@ class SpecEnv(object):
 
 
 _FALLTHROUGH = object()
+
+
+def engine_checker_error(msg):
+    from .engine import CheckerError
+    return CheckerError(msg)
 
 
 def engine_state():
@@ -608,6 +687,9 @@ class Ctx(object):
         if isinstance(e.slice, ast.Slice):
             raise Unsupported("slicing in spec (use decomposition)")
         k = self.ev(e.slice)
+        from .engine import Obj
+        if isinstance(o, Obj) and o.kind == "dict":
+            return SVal(z3.Select(self.engine.heap_get(self.st, o, "map").z, to_val(k)))
         if isinstance(o, (tuple, list, dict)) and not is_sym(k):
             return o[k]
         if isinstance(o, (SBytes, SStr)):
@@ -627,7 +709,16 @@ class Ctx(object):
         raise Unsupported("spec unary")
 
     def x_BoolOp(self, e):
-        vals = [truth(self.ev(v)) for v in e.values]
+        vals = []
+        for v in e.values:
+            t = truth(self.ev(v))
+            if isinstance(t, bool):             # short-circuit on concrete operands (later ones may be undefined)
+                if t != isinstance(e.op, ast.And):
+                    return t
+                continue
+            vals.append(t)
+        if not vals:
+            return isinstance(e.op, ast.And)
         zs = [ops._z(v) for v in vals]
         return b2v(z3.And(zs) if isinstance(e.op, ast.And) else z3.Or(zs))
 
@@ -662,6 +753,11 @@ class Ctx(object):
                 return sub.ev(e.args[0])
             if n == "len":
                 return self.length(self.ev(e.args[0]))
+            if n == "implies" and len(e.args) == 2:
+                a = truth(self.ev(e.args[0]))
+                if isinstance(a, bool):
+                    return True if not a else b2v(ops._z(truth(self.ev(e.args[1]))))
+                return b2v(z3.Implies(a, ops._z(truth(self.ev(e.args[1])))))
             if n == "min" or n == "max":
                 a, b = [self.ev(x) for x in e.args]
                 if not is_sym(a) and not is_sym(b):
